@@ -43,6 +43,9 @@ EventClause(e) ==
                ELSE IF Case.lossy
                     THEN (IF Close(e.bytes, mem[key].bytes) THEN "ok" ELSE "oracle:JpegError")
                ELSE IF e.bytes # mem[key].bytes THEN "oracle:ReadYourWrites"
+               \* the array handed out must still hold the same values at the end of the
+               \* history (no aliasing between the results of different reads)
+               ELSE IF e.late # e.bytes THEN "oracle:ReadResultMutatedLater"
                ELSE "ok"
 
 MemPut(m, k, v) == [q \in DOMAIN m \cup {k} |-> IF q = k THEN v ELSE m[q]]
